@@ -33,6 +33,10 @@ def expand(crate_dir, crate_name, features=(), cfgs=(), allow_errors=True, failu
     out = os.path.join(EXPDIR, key + ".rs")
     fout = os.path.join(EXPDIR, key + ".fail.json")
     if os.path.exists(out) and not os.environ.get("VERIF_NO_CACHE"):
+        try:
+            os.utime(out, None)   # least-recently-used pruning keys on mtime
+        except OSError:
+            pass
         if failures is not None and os.path.exists(fout):
             failures.update(json.load(open(fout)))
         with open(out) as f:
